@@ -2827,8 +2827,29 @@ def nontrivial(st, n_wire, n_events):
     return st['accepted'] > 0 and (st['dup'] + st['stale'] + st['reordered'] + st['buffered'] > 0 or n_events < n_wire)
 
 
+def run_corpus(ctx):
+    """recorded failing cases (minimised past failures, among them the witnesses of the known findings) run first, in both tiers"""
+    import glob
+    import json
+    for f in sorted(glob.glob(os.path.join(core.VERIF, 'corpus', ctx.prop, '*.json'))):
+        case = json.load(open(f))['case']
+        if 'scenario' in case:
+            continue     # the scenario sets run in every tier anyway
+        sub = core.Ctx(ctx.prop, case.get('tier', ctx.tier), case.get('seed', ctx.seed))
+        world = World(two_mds=two_mds_chunk(case['history'] // CHUNK))
+        try:
+            run_chunk(sub, world, case['key'], case['history'] // CHUNK, case['n_hist'], 0, tuple(case['n_tx']),
+                      sched_gen=case['sched_gen'], only=(case['history'], case['schedule']))
+        finally:
+            world.stop()
+        for fl in sub.failures:
+            ctx.fail(fl['signature'], fl['detail'], fl['case'])
+        ctx.count('corpus-cases')
+
+
 def run(ctx):
     results = []
+    run_corpus(ctx)
     # the fixed scenario sets and the generated cases, each task on a fresh provider in a worker process
     results += run_cases(ctx, 'c06', ctx.n(15, 400), ctx.n(8, 12), scenario_sets=('burst', 'main', 'two_mds'))
     for r in results:
